@@ -14,15 +14,39 @@ E_TEXT = ("Every configuration of an exhaustively enumerated parameter box is dr
           "this property in every state of every trace (all passes, every prefix). The same clauses are "
           "model-checked for mutual consistency on the free specification (ExecFree).")
 
+OPT_TEXT = ("Optimality over ALL executable schedules is decided by TLC exhaustively exploring every behaviour of the "
+            "executor machine (ExecOpt.tla) whose cost could still end below the cost the implementation achieved "
+            "(claims are totals of implementation traces validated against the full Executor); a cheaper completed "
+            "behaviour is a violation with TLC's counterexample as witness. Beyond the searched box the closed "
+            "form / recurrence (OptTables.tla, built row by row and itself checked against the exhaustive optimum) "
+            "is compared with the implementation on a larger box.")
+H_TEXT = ("TLC chooses what is done to the code and judges what the code did: the specification enumerates the "
+          "behaviours (call histories / process interleavings / parameter tuples / action pairs), the harness replays "
+          "each into real objects from /repo's working tree, and TLC validates the resulting logs against the "
+          "specification's clauses.")
+X_TEXT = ("Trace validation with a specification extending TraceExec by history variables for this class; every clause "
+          "evaluated at every event of every trace of an exhaustively enumerated box.")
+
 CHECKS = {
-    "C01": ("trace validation against Executor.tla (TLC), exhaustive parameter box", E_TEXT, "5 C01"),
-    "C02": ("trace validation against Executor.tla (TLC), exhaustive parameter box", E_TEXT, "5 C02"),
-    "C03": ("trace validation: budget invariants of Executor.tla in every state (TLC)", E_TEXT, "5 C03"),
-    "C04": ("trace validation: storage-clean clauses at every EndReverse (TLC)", E_TEXT, "5 C04"),
-    "C08": ("trace validation: observer clauses of SchedAPI.tla after every call (TLC)", E_TEXT, "5 C08"),
-    "C09": ("trace validation of pass structure/exhaustion flags + TLC-enumerated call histories", E_TEXT, "5 C09"),
-    "C11": ("trace validation: uses_storage_type vs storages touched by the stream (TLC)", E_TEXT, "5 C11"),
-    "C12": ("trace validation: WORK-storage clauses/invariant of Executor.tla (TLC)", E_TEXT, "5 C12"),
+    "C01": ("trace validation against Executor.tla (TLC), exhaustive parameter box", E_TEXT, "5 C01", "tlc-trace-validation"),
+    "C02": ("trace validation against Executor.tla (TLC), exhaustive parameter box", E_TEXT, "5 C02", "tlc-trace-validation"),
+    "C03": ("trace validation: budget invariants of Executor.tla in every state (TLC)", E_TEXT, "5 C03", "tlc-trace-validation"),
+    "C04": ("trace validation: storage-clean clauses at every EndReverse (TLC)", E_TEXT, "5 C04", "tlc-trace-validation"),
+    "C05": ("TLC exhaustive search of all executable schedules (ExecOpt.tla) + Griewank-Walther closed form/recurrence state machine (OptTables.tla) on validated trace totals", OPT_TEXT, "5 C05", "tlc-exhaustive-search"),
+    "C06": ("TLC exhaustive search of all executable schedules with mixed units (ExecOpt.tla) + mixed recurrence (OptTables.tla)", OPT_TEXT, "5 C06", "tlc-exhaustive-search"),
+    "C07": ("TLC exhaustive cost-bounded search over RAM/DISK hierarchies and cost vectors (ExecOpt.tla) + sibling order relations (CostOrder.tla)", OPT_TEXT, "5 C07", "tlc-exhaustive-search"),
+    "C08": ("trace validation: observer clauses of SchedAPI.tla after every call (TLC)", E_TEXT, "5 C08", "tlc-trace-validation"),
+    "C09": ("trace validation of pass structure/exhaustion flags + TLC-enumerated call histories (Client.tla) replayed into the code", E_TEXT + " " + H_TEXT, "5 C09", "tlc-trace-validation"),
+    "C10": ("TLC-enumerated call histories (Client.tla) replayed into the real classes, logs validated against the finalize guard of SchedAPI.tla (TraceClient.tla)", H_TEXT, "5 C10", "tlc-history-replay"),
+    "C11": ("trace validation: uses_storage_type vs storages touched by the stream (TLC)", E_TEXT, "5 C11", "tlc-trace-validation"),
+    "C12": ("trace validation: WORK-storage clauses/invariant of Executor.tla (TLC)", E_TEXT, "5 C12", "tlc-trace-validation"),
+    "C13": ("trace validation with block history variable (TraceTwoLevel.tla) + GW closed form (GWForm.tla)", X_TEXT, "5 C13", "tlc-trace-validation"),
+    "C14": ("trace validation with checkpoint-stack history and all-DISK sibling trace (TraceMultistage.tla)", X_TEXT, "5 C14", "tlc-trace-validation"),
+    "C15": ("TLC-generated process interleavings (Process.tla) replayed in one interpreter, streams compared with fresh-interpreter references (TraceSibling.tla)", H_TEXT, "5 C15", "tlc-history-replay"),
+    "C16": ("stub-numba second planner path: table entries judged by TLC (PlanTable.tla, OptTables.tla), streams compared event-wise (TraceSibling.tla)", H_TEXT, "5 C16", "tlc-trace-validation"),
+    "C17": ("TLC-enumerated boundary box with zones (Domain.tla) replayed into constructors/iterators, traces judged by TraceDomain.tla", H_TEXT, "5 C17", "tlc-history-replay"),
+    "C18": ("shape clauses on every emitted action (TraceExec.tla) + TLC-enumerated action universe, all ordered pairs judged by ActionPairs.tla", H_TEXT, "5 C18", "tlc-history-replay"),
+    "C19": ("trace validation with period/segment history variables (TracePeriodic.tla) + Aupy-Herrmann closed form (GWForm.tla)", X_TEXT, "5 C19", "tlc-trace-validation"),
 }
 
 PENDING = {}
@@ -35,14 +59,14 @@ def build():
     for p in props:
         pid = p["id"]
         if pid in CHECKS:
-            tech, text, ref = CHECKS[pid]
+            tech, text, ref, eng = CHECKS[pid]
             checks.append({
                 "property_id": pid,
                 "quick_cmd": f"./check {pid} --tier quick",
                 "thorough_cmd": f"./check {pid} --tier thorough",
                 "evidence_file": f"/verif/evidence/{pid}.json",
                 "replay_cmd_template": f"./check {pid} --replay {{path}}",
-                "engine": "tlc-trace-validation",
+                "engine": eng,
                 "level_claimed": {"category": "model_checking", "text": text,
                                   "design_ref": f"DESIGN.md section {ref}"},
                 "level_note": TRACE_TB,
@@ -63,10 +87,18 @@ def build():
                   "source_commits": [], "add_only": True},
         "engines": [
             {"name": "tlc-trace-validation", "path": "/verif/spec/TraceExec.tla",
-             "serves_properties": sorted(CHECKS),
-             "kind_free_text": "explicit TLA+ specification (CkptActions/Executor/SchedAPI) checked with TLC; "
-                               "bound to the code by validating recorded traces and by replaying TLC-generated "
-                               "behaviours into the real classes"}],
+             "serves_properties": sorted(p for p in CHECKS if CHECKS[p][3] == "tlc-trace-validation"),
+             "kind_free_text": "code -> spec: explicit TLA+ specification (CkptActions/Executor/SchedAPI and the "
+                               "class-specific extensions) checked with TLC; traces recorded from the real classes "
+                               "are replayed through the same operators, every clause evaluated in every state"},
+            {"name": "tlc-exhaustive-search", "path": "/verif/spec/ExecOpt.tla",
+             "serves_properties": sorted(p for p in CHECKS if CHECKS[p][3] == "tlc-exhaustive-search"),
+             "kind_free_text": "TLC explores every behaviour of the executor machine below the implementation's cost; "
+                               "OptTables/CostOrder check closed forms, recurrences and order relations"},
+            {"name": "tlc-history-replay", "path": "/verif/spec/Client.tla",
+             "serves_properties": sorted(p for p in CHECKS if CHECKS[p][3] == "tlc-history-replay"),
+             "kind_free_text": "spec -> code -> spec: TLC-generated behaviours (Client, Process, Domain, ActionUniverse) "
+                               "are replayed into the real objects and the logs validated by TLC"}],
         "checks": checks,
         "not_applicable": na,
         "notes": "see DESIGN.md; ./check <ID> [--tier quick|thorough] [--replay PATH] is the only entry point",
